@@ -12,6 +12,7 @@ import warnings
 from . import render
 from . import vloop
 from .simrt import SIM
+from .simrt import SimBaseFault
 from .simrt import dec
 from .simrt import enc
 from .vloop import SimDeadlock
@@ -443,7 +444,7 @@ class Runner:
             return r, None
         except (SimDeadlock, SimStepCap, HarnessError):
             raise
-        except Exception as e:
+        except (Exception, SimBaseFault) as e:
             return None, e
 
     def _absent(self, n, op):
@@ -488,7 +489,7 @@ class Runner:
                     r = await r
             except (SimDeadlock, SimStepCap, HarnessError):
                 raise
-            except Exception as ex:
+            except (Exception, SimBaseFault) as ex:
                 r, e = None, ex
         self._finish(n, op, r, e)
 
